@@ -55,7 +55,7 @@ CLAIMS = {
  'C14': C('other', 'cache-freshness by symbolic execution of all methods (caches discovered from lazy-property idiom), exact sympy identities on extracted formulas incl. sibling agreement of the barrier at a clamped radius, mask structure, index agreement of per-phase moments, shared-state rule (T-SHARED), one-sided comparison agreement between the factor evaluator and the ratio validator (contradiction rule) and between the sign tests of the driving force',
    STRUCT + 'Here: every lazily cached factor is None after any write of gamma/gbEnergy/site type; area - 2k*removed - 3*volume == 0, the k=0 limits and the reduction of Rcrit/Gcrit to the classical values are exact identities of the extracted formulas; outputs are zero-initialised and written only under the positive-driving-force / non-zero masks; occupied sites are summed over all phases of the same site type and returned through max(.,0).',
    'Finiteness, monotonicity in dG and k and the incubation factor range are not decided. F25 (boundary-site barrier negative at a radius raised to the minimum radius) is a recorded known finding: its one-line repair changes a value pinned by an existing test.', '4/C14'),
- 'C15': C('other', 'alias/purity analysis, exact sympy identities and one-sided limits on extracted closed forms, dtype rule, derived-state rule, mode-flag must-assign analysis (T-MODEFLAG), path analysis of the bisection loop',
+ 'C15': C('other', 'alias/purity analysis, exact sympy identities and one-sided limits on extracted closed forms, constant folding of the wrapper mask at the literal probe point (two-site rule), dtype rule (result buffers and *_like allocations), derived-state rule, mode-flag must-assign analysis (T-MODEFLAG), path analysis of the bisection loop',
    STRUCT + 'Here: no factor function writes into its aspect-ratio/radius argument; unit volume and axis ratio of the semi-axes, the sphere limits of needle/plate factors and continuity at aspect ratio 1 (value used below 1 == limit of the shape formula) are exact; result buffers are float; ShapeFactor keeps no value derived from a previous description; the bisection for the critical radius starts on the whole interval [RcritSphere, Rmax], moves exactly one end to the midpoint per iteration and recomputes the midpoint.',
    'Agreement with quadrature of area/capacitance integrals, monotonicity and the bisection tolerance are not decided.', '4/C15'),
  'C16': C('other', 'derived-state freshness by symbolic execution, literal evaluation of quadrature tables with exact trigonometry, exact replay of modulus conversions, non-commutative operator normal forms, tensor-index bookkeeping of the rotations, degree-of-homogeneity inference for the Eshelby integral, weight typing of the 6x6 (Voigt) forms, shared class-level state rule (T-SHARED)',
@@ -97,7 +97,7 @@ def main():
             'engine': 'kverif',
             'level_claimed': {'category': c['cat'], 'text': c['text'], 'design_ref': f'DESIGN.md section {c["ref"]}'},
             'level_note': c['note'],
-            'technique': 'static analysis: ' + c['tech'] + '; writer/invalidator and may-alias analysis of new memo fields (T-MEMO)',
+            'technique': 'static analysis: ' + c['tech'] + '; writer/invalidator, may-alias and proxy-key def-use completeness analysis of new memo fields (T-MEMO)',
         })
     na = []
     for pid in ALL:
